@@ -156,6 +156,62 @@ func runC04(c *Ctx, ev *Evidence) ([]Violation, error) {
 	}
 	viols = append(viols, v3...)
 	budget.report(ev, "C04")
+	// (3b) the URL attribute given twice
+	ud, err := c.exploreUnit(ev, "HarnessC04_ugcDup", sym.Config{ForceFeas: true, BranchTimeout: 3 * time.Second})
+	if err != nil {
+		return nil, err
+	}
+	seenD := map[string]bool{}
+	v3b, reachD, err := c.runUnitObligations(ev, ud, "C04", timeout, grace, func(r UnitResult) (*Violation, error) {
+		el := r.Notes["el"].S
+		sig := "element=" + el + " duplicate-url-attribute"
+		if seenD[sig] {
+			return nil, nil
+		}
+		nt := noteTerms(r.Ob)
+		short := []string{"javascript:alert(1)", "http://a/b", "/p", "data:text/html,<x>", "x:y"}
+		replays := 0
+		for _, c0 := range short {
+			for _, c1 := range short {
+				facts := append(urlCandidateFacts(nt["in.v0"], c0), urlCandidateFacts(nt["in.v1"], c1)...)
+				r2 := solveOb(ud.In, r.Ob, facts, timeout, grace, "C04-dup-ground")
+				if r2.Res.Status != smt.Sat {
+					continue
+				}
+				replays++
+				in := attrsFromNotes(r2.Notes, "in")
+				req := NativeReq{"op": "sanitizeAttrs", "policy": []NativeReq{{"op": "base", "name": "UGC"}}, "element": el, "attrs": attrsToJSON(in)}
+				nres, nerr := RunNative(c.Repo, c.VerifDir, []NativeReq{req}, "")
+				if nerr != nil {
+					return nil, nerr
+				}
+				got := decodeAttrs(nres[0]["attrs"])
+				why := c04AttrOracle(el, got)
+				ev.Sample(map[string]interface{}{"query": "C04 duplicate-attribute counterexample", "element": el, "in": in, "native_out": got, "native_oracle": why})
+				if why != "" {
+					ev.AddReplayed(1)
+					seenD[sig] = true
+					return &Violation{Sig: sig, Detail: fmt.Sprintf("UGCPolicy: <%s> in=%q out=%q: %s", el, in, got, why), Replay: []NativeReq{req}}, nil
+				}
+				if replays >= 6 {
+					break
+				}
+			}
+			if replays >= 6 {
+				break
+			}
+		}
+		ev.Inconclusive(fmt.Sprintf("C04: counterexample at %s: %d concrete instance(s), none reproduced natively", sig, replays))
+		return nil, nil
+	})
+	ud.In.Close()
+	if err != nil {
+		return nil, err
+	}
+	viols = append(viols, v3b...)
+	if reachD["C04-dup-reach"] == 0 {
+		ev.Inconclusive("vacuity: duplicate-attribute harness unreachable")
+	}
 	if reach["C04-attrs-reach"] == 0 {
 		ev.Inconclusive("vacuity: attribute harness unreachable")
 	}
